@@ -342,6 +342,22 @@ def run_oracles(pid, tier, seed, stats, log, mult=1, known_hits=None):
             x['n'] = n
         per[name] = {'cases': n, 'violations': len(mine), 's': round(time.time() - t0, 1)}
         v += mine
+    if tier == 'thorough' and mult == 1:
+        extra = []
+        t0 = time.time()
+        if cfgp.get('real_processes'):
+            rng = random.Random('%s-real-%d' % (pid, seed))
+            extra += O.oracle_real_processes(rng, 25, stats)
+            extra += O.oracle_hash_seeds(seed, 120, stats)
+            per['real_processes+hash_seeds'] = {'cases': 25 + 3 * 120, 's': round(time.time() - t0, 1)}
+        if cfgp.get('datasets'):
+            extra += O.oracle_datasets(random.Random(seed), stats)
+            per['bundled_datasets'] = {'cases': 15, 's': round(time.time() - t0, 1)}
+        for x in extra:
+            x['oracle'] = 'thorough-extra'
+            x['seed'] = seed
+            x['n'] = 1
+        v += [x for x in extra if x['property'] == pid or (x['property'] == 'C15' and 'raised' in x['what'])]
     return v, per
 
 
